@@ -1,0 +1,52 @@
+// Verification hooks. Compiled only with `--cfg fastrace_verif`; never part of a normal build.
+
+//! Hooks used by the out-of-tree verification harness: yield/log sites inside the command
+//! channel and the collector cycle, and a collector that is driven by the caller instead of a
+//! background thread.
+
+use std::sync::atomic::AtomicUsize;
+use std::sync::atomic::Ordering;
+
+pub use crate::collector::global_collector::verif_impl::CollectorStats;
+pub use crate::collector::global_collector::verif_impl::collector_stats;
+pub use crate::collector::global_collector::verif_impl::install_collector;
+pub use crate::collector::global_collector::verif_impl::run_collector_cycle;
+pub use crate::collector::global_collector::verif_impl::touch_sender;
+
+/// A point inside the library reported to the installed hook function.
+#[derive(Debug, Clone)]
+pub enum Site {
+    /// `send_command` / `force_send_command` was entered with this command.
+    Command {
+        kind: &'static str,
+        ids: Vec<usize>,
+        force: bool,
+    },
+    /// The sender is about to push onto the ring. `free` slots are available, `pending`
+    /// commands are parked in the overflow list (including the one being replayed).
+    BeforePush { free: usize, pending: usize },
+    /// Outcome of `Sender::send` for the command passed to it.
+    PushOutcome { ok: bool },
+    /// The collector is about to drain the next receiver.
+    BeforeDrain,
+    /// A receiver popped an empty ring and has not yet checked for abandonment.
+    RecvEmpty,
+    /// The collector received this command from the receiver being drained.
+    Received { kind: &'static str, ids: Vec<usize> },
+}
+
+static HOOK: AtomicUsize = AtomicUsize::new(0);
+
+/// Installs (or removes) the process-wide hook function.
+pub fn set_hook(f: Option<fn(Site)>) {
+    HOOK.store(f.map(|f| f as usize).unwrap_or(0), Ordering::SeqCst);
+}
+
+#[inline]
+pub(crate) fn hook(site: impl FnOnce() -> Site) {
+    let p = HOOK.load(Ordering::Relaxed);
+    if p != 0 {
+        let f: fn(Site) = unsafe { std::mem::transmute::<usize, fn(Site)>(p) };
+        f(site());
+    }
+}
